@@ -163,16 +163,24 @@ def stepd(ctx):
         num, den = S(spec_num, {"ln": ln}), S(spec_den, {"ln": ln})
         want = T.mk_ite(T.mk_cmp("==", den, const(0)), const(0), num / den)
         ctx.ob("FRM", "STEPD." + name, "accessor formula", ta.retval is not None and (ta.retval == want or _ite_same(ta.retval, want)), q.short(ta.retval, 160))
-    # statistic with the accessor values as symbols
-    rets = {}
-    for x in tr.events:
-        if x.kind == "return" and x.func.name in ("recent_accuracy", "past_accuracy", "overall_accuracy") and x.func.name not in rets:
-            pass
+    # statistic with the accessor values as symbols (the values returned by the three accessor methods)
     vals = {}
-    for x in tr.events:
-        if x.kind == "local" and x.name in ("recent_accuracy", "past_accuracy", "overall_accuracy") and x.func.qualname == site:
-            vals[x.name] = x.value
-    ctx.require(len(vals) == 3, "STEPD.update reads its three accuracies")
+    for ce in tr.calls():
+        fi = ce.d.get("fi")
+        if fi is not None and fi.name in ("recent_accuracy", "past_accuracy", "overall_accuracy") and ce.func.qualname == site and fi.name not in vals:
+            rets = []
+            for x in tr.events[ce.seq + 1:]:
+                if x.kind == "exit" and x.d.get("fi") is fi:
+                    break
+                if x.kind == "return" and x.func is fi:
+                    rets.append(x)
+            if rets:
+                v = rets[-1].value
+                for r_ in reversed(rets[:-1]):
+                    v = T.mk_ite(T.mk_and([p.cond for p in r_.pc[len(ce.pc):]]), r_.value, v)
+                vals[fi.name] = v
+    if not ctx.anchor(site, "STEPD.update reads its three accuracies through the accessor methods", len(vals) == 3):
+        return
     ts = tr.stores("_test_statistic")
     ctx.anchor(site, "test statistic stored", len(ts) == 1, "")
     sym = {k: atom(("sym", k)) for k in vals}
